@@ -1,0 +1,232 @@
+//! Hooks for the Immix line/block bookkeeping (C34) and the page resources (C28).
+//! Add-only; feature `mmtk_verif`. Thin wrappers around crate-private items.
+
+use crate::policy::immix::block::{Block, BlockState};
+use crate::policy::immix::line::Line;
+use crate::util::linear_scan::Region;
+
+/// Constants of the Immix line/block geometry and of the line mark state machine, read from the
+/// linked crate.
+#[derive(Clone, Debug)]
+pub struct ImmixConsts {
+    /// `Line::LOG_BYTES`
+    pub line_log_bytes: usize,
+    /// `Block::LOG_BYTES`
+    pub block_log_bytes: usize,
+    /// `Block::LINES`
+    pub block_lines: usize,
+    /// `Block::PAGES`
+    pub block_pages: usize,
+    /// `Line::RESET_MARK_STATE`
+    pub reset_mark_state: u8,
+    /// `Line::MAX_MARK_STATE`
+    pub max_mark_state: u8,
+    /// byte encoding of `BlockState::Unallocated`
+    pub mark_unallocated: u8,
+    /// byte encoding of `BlockState::Unmarked`
+    pub mark_unmarked: u8,
+    /// byte encoding of `BlockState::Marked`
+    pub mark_marked: u8,
+    /// `policy::immix::BLOCK_ONLY`
+    pub block_only: bool,
+    /// `policy::immix::MARK_LINE_AT_SCAN_TIME`
+    pub mark_line_at_scan_time: bool,
+    /// `policy::immix::MAX_IMMIX_OBJECT_SIZE`
+    pub max_object_size: usize,
+}
+
+/// The constants of the linked crate.
+pub fn consts() -> ImmixConsts {
+    ImmixConsts {
+        line_log_bytes: Line::LOG_BYTES,
+        block_log_bytes: Block::LOG_BYTES,
+        block_lines: Block::LINES,
+        block_pages: Block::PAGES,
+        reset_mark_state: Line::RESET_MARK_STATE,
+        max_mark_state: Line::MAX_MARK_STATE,
+        mark_unallocated: u8::from(BlockState::Unallocated),
+        mark_unmarked: u8::from(BlockState::Unmarked),
+        mark_marked: u8::from(BlockState::Marked),
+        block_only: crate::policy::immix::BLOCK_ONLY,
+        mark_line_at_scan_time: crate::policy::immix::MARK_LINE_AT_SCAN_TIME,
+        max_object_size: crate::policy::immix::MAX_IMMIX_OBJECT_SIZE,
+    }
+}
+
+/// A block state in a crate-independent shape: `(kind, n)`, kind 0 = Unallocated, 1 = Unmarked,
+/// 2 = Marked, 3 = Reusable { unavailable_lines: n }.
+fn shape(s: BlockState) -> (u8, u8) {
+    match s {
+        BlockState::Unallocated => (0, 0),
+        BlockState::Unmarked => (1, 0),
+        BlockState::Marked => (2, 0),
+        BlockState::Reusable { unavailable_lines } => (3, unavailable_lines),
+    }
+}
+
+/// `BlockState::from(byte)` as `(kind, n)`.
+pub fn block_state_of_byte(byte: u8) -> (u8, u8) {
+    shape(BlockState::from(byte))
+}
+
+/// `u8::from(state)` for the state `(kind, n)` (kind as in [`block_state_of_byte`]).
+pub fn block_state_to_byte(kind: u8, n: u8) -> Option<u8> {
+    let s = match kind {
+        0 => BlockState::Unallocated,
+        1 => BlockState::Unmarked,
+        2 => BlockState::Marked,
+        3 => BlockState::Reusable { unavailable_lines: n },
+        _ => return None,
+    };
+    Some(u8::from(s))
+}
+
+/// `BlockState::is_reusable` of `BlockState::from(byte)`.
+pub fn block_state_is_reusable(byte: u8) -> bool {
+    BlockState::from(byte).is_reusable()
+}
+
+// ------------------------------------------------------------------------------------------
+// Unit access to a real ImmixSpace (the first one of the plan): one block whose line table the
+// harness overwrites, then the real hole search / sweep / line marking run on it.
+// ------------------------------------------------------------------------------------------
+
+use crate::policy::immix::ImmixSpace;
+use crate::policy::space::Space;
+use crate::util::alloc::allocator::AllocationOptions;
+use crate::util::opaque_pointer::VMThread;
+use crate::util::{Address, ObjectReference};
+use crate::vm::VMBinding;
+use crate::MMTK;
+
+fn with_first_immix<VM: VMBinding, R>(mmtk: &MMTK<VM>, f: &mut dyn FnMut(&ImmixSpace<VM>) -> R) -> Option<R> {
+    let mut out = None;
+    mmtk.get_plan().for_each_space(&mut |s: &dyn Space<VM>| {
+        if out.is_none() {
+            if let Some(ix) = s.downcast_ref::<ImmixSpace<VM>>() {
+                out = Some(f(ix));
+            }
+        }
+    });
+    out
+}
+
+/// `ImmixSpace::get_clean_block(tls, false, default options)` on the first ImmixSpace of the plan.
+pub fn unit_acquire_block<VM: VMBinding>(mmtk: &MMTK<VM>, tls: VMThread) -> Option<Address> {
+    with_first_immix(mmtk, &mut |ix: &ImmixSpace<VM>| {
+        ix.get_clean_block(tls, false, AllocationOptions::default())
+            .map(|b| b.start())
+    })
+    .flatten()
+}
+
+/// Overwrite `line_mark_state` / `line_unavail_state` of the first ImmixSpace.
+pub fn unit_set_line_states<VM: VMBinding>(mmtk: &MMTK<VM>, current: u8, unavail: u8) {
+    with_first_immix(mmtk, &mut |ix: &ImmixSpace<VM>| ix.verif_set_line_states(current, unavail));
+}
+
+/// Store the line mark bytes of the block (`Line::mark` per line).
+pub fn unit_store_lines(block: Address, lines: &[u8]) {
+    let b = Block::from_aligned_address(block);
+    for (line, v) in b.lines().zip(lines.iter()) {
+        line.mark(*v);
+    }
+}
+
+/// Load the line mark bytes of the block.
+pub fn unit_load_lines(block: Address) -> Vec<u8> {
+    let tab = Block::from_aligned_address(block).line_mark_table();
+    (0..tab.len()).map(|i| tab.get(i)).collect()
+}
+
+/// `Block::get_state` as a byte.
+pub fn unit_block_state(block: Address) -> u8 {
+    u8::from(Block::from_aligned_address(block).get_state())
+}
+
+/// `Block::init(copy)`.
+pub fn unit_block_init(block: Address, copy: bool) {
+    Block::from_aligned_address(block).init(copy)
+}
+
+/// The byte of `Block::DEFRAG_STATE_TABLE`.
+pub fn unit_block_defrag_byte(block: Address) -> u8 {
+    Block::DEFRAG_STATE_TABLE.load_atomic::<u8>(block, std::sync::atomic::Ordering::SeqCst)
+}
+
+/// The real `get_next_available_lines` from line `start_line` of the block, as line indices.
+pub fn unit_holes<VM: VMBinding>(mmtk: &MMTK<VM>, block: Address, start_line: usize) -> Option<(usize, usize)> {
+    with_first_immix(mmtk, &mut |ix: &ImmixSpace<VM>| {
+        let first = Block::from_aligned_address(block).start_line();
+        ix.get_next_available_lines(first.next_nth(start_line)).map(|(s, e)| {
+            (
+                (s.start() - first.start()) / Line::BYTES,
+                (e.start() - first.start()) / Line::BYTES,
+            )
+        })
+    })
+    .flatten()
+}
+
+/// The real `Block::sweep(space, histogram, Some(state))`: 0 = Swept, 1 = Reused, 2 = NoReuse.
+pub fn unit_sweep<VM: VMBinding>(mmtk: &MMTK<VM>, block: Address, state: u8) -> Option<u8> {
+    with_first_immix(mmtk, &mut |ix: &ImmixSpace<VM>| {
+        ix.verif_sweep_block(Block::from_aligned_address(block), state)
+    })
+}
+
+/// The real `Line::mark_lines_for_object`.
+pub fn unit_mark_lines_for_object<VM: VMBinding>(object: ObjectReference, state: u8) -> usize {
+    Line::mark_lines_for_object::<VM>(object, state)
+}
+
+// ------------------------------------------------------------------------------------------
+// C28: a real MonotonePageResource (contiguous) driven without a space: only the cursor and the
+// accounting are touched, no memory is mapped.
+// ------------------------------------------------------------------------------------------
+
+use crate::util::heap::space_descriptor::SpaceDescriptor;
+use crate::util::heap::{MonotonePageResource, PageResource};
+
+/// A stand-alone contiguous `MonotonePageResource`.
+pub struct UnitMonotone<VM: VMBinding> {
+    pr: MonotonePageResource<VM>,
+    desc: SpaceDescriptor,
+}
+
+impl<VM: VMBinding> UnitMonotone<VM> {
+    /// `MonotonePageResource::new_contiguous(start, bytes, VM_MAP)`.
+    pub fn new(start: Address, bytes: usize) -> Self {
+        Self {
+            pr: MonotonePageResource::new_contiguous(start, bytes, crate::mmtk::VM_MAP.as_ref()),
+            desc: SpaceDescriptor::create_descriptor_from_heap_range(start, start + bytes),
+        }
+    }
+    /// `reserve_pages`.
+    pub fn reserve(&self, pages: usize) -> usize {
+        self.pr.reserve_pages(pages)
+    }
+    /// `get_new_pages(descriptor, reserved, required, tls)`: `(start, pages, new_chunk)`.
+    pub fn alloc(&self, reserved: usize, required: usize) -> Option<(Address, usize, bool)> {
+        self.pr
+            .get_new_pages(self.desc, reserved, required, VMThread::UNINITIALIZED)
+            .ok()
+            .map(|r| (r.start, r.pages, r.new_chunk))
+    }
+    /// `clear_request`.
+    pub fn clear(&self, pages: usize) {
+        self.pr.clear_request(pages)
+    }
+    /// `reset`.
+    pub fn reset(&self) {
+        unsafe { self.pr.reset() }
+    }
+    /// `reset_cursor`.
+    pub fn reset_cursor(&self, top: Address) {
+        self.pr.reset_cursor(top)
+    }
+    /// `(reserved_pages, committed_pages, cursor)`.
+    pub fn counters(&self) -> (usize, usize, Address) {
+        (self.pr.reserved_pages(), self.pr.committed_pages(), self.pr.cursor())
+    }
+}
